@@ -572,6 +572,7 @@ func main() {
 		}
 		both(s, al, 2)
 	}
+	farReplays(r, rnd)
 	r.Floor("direct_cases", int(r.Counter("direct_cases")), 5000)
 	r.Floor("connection_cases", int(r.Counter("connection_cases")), 200)
 	r.Floor("errors_reported", int(r.Counter("errors_reported")), 1000)
@@ -599,4 +600,46 @@ func mkStreamLikeAt(rnd *rand.Rand, s *stream, advance int) *stream {
 		o.plains = append(o.plains, p)
 	}
 	return o
+}
+
+// farReplays: a frame recorded at counter c is replayed when the receiver has reached c + d, for distances d that
+// no test can produce by sending frames (the receiver is placed there through the crypto.VerifSetFrameCounters
+// hook): multiples of 2^8, 2^16, 2^32, 2^40, 2^48, 2^56 and 2^63.  Nothing may be released and an error must be
+// reported; the same frame at its own counter is the positive control.
+func farReplays(r *vf.Run, rnd *rand.Rand) {
+	dists := []uint64{1 << 8, 1 << 16, 1 << 24, 1 << 32, 1 << 33, 3 << 32, 1 << 40, 1 << 48, 1 << 56, 1 << 63, 1<<32 + 1<<8, 1<<63 + 1<<32}
+	for _, d := range dists {
+		for _, c := range []uint64{0, 5, 1 << 20} {
+			var secret [32]byte
+			rnd.Read(secret[:])
+			c2a, _ := refctl.SessionKeys(secret[:])
+			p := make([]byte, 1+rnd.Intn(200))
+			rnd.Read(p)
+			frame := (&refctl.Framer{Key: c2a, Count: c}).SealFrame(p)
+			w := map[string]interface{}{"recorded_at_counter": fmt.Sprint(c), "replayed_at_counter": fmt.Sprint(c + d), "distance": fmt.Sprint(d), "secret": vf.Hex(secret[:])}
+			for _, at := range []uint64{c, c + d} {
+				acc, err := crypto.NewSecureSessionFromSharedKey(secret)
+				if err != nil || !crypto.VerifSetFrameCounters(acc, 0, at) {
+					r.Inconclusive("the frame counter hook does not apply to the session type any more")
+					return
+				}
+				dec, derr := acc.Decrypt(bytes.NewReader(frame))
+				var got []byte
+				if dec != nil {
+					got, _ = ioutil.ReadAll(dec)
+				}
+				switch {
+				case at == c && (derr != nil || !bytes.Equal(got, p)):
+					r.Violation("far-replay:control-rejected", fmt.Sprintf("a frame sealed at counter %d is not accepted by a receiver at counter %d: %v", c, c, derr), w)
+				case at != c && (derr == nil || len(got) > 0):
+					r.Violation("far-replay:accepted", fmt.Sprintf("a frame recorded at counter %d is accepted again (%d plaintext bytes released, error %v) by a receiver that has reached counter %d: the distance %d is invisible to the nonce", c, len(got), derr, c+d, d), w)
+				default:
+					r.Count("far_replay_decisions_right", 1)
+				}
+				r.Eval()
+			}
+			r.Nontrivial(fmt.Sprintf("far-replay/%d/%d", d, c))
+		}
+	}
+	r.Floor("far_replay_decisions_right", int(r.Counter("far_replay_decisions_right")), len(dists)*3*2)
 }
